@@ -72,7 +72,7 @@ def step_line(g, ei):
     return "S op=%s o=%s" % (op, o)
 
 
-def x_scripts(name, types):
+def x_scripts(name, types, huge=True):
     dot, st = common.dump_graph(SPEC, "MC_RingBuffer.tla", "MC_RingBuffer_%s.cfg" % name, "RingBuffer-" + name)
     g = common.load_graph(dot)
     ow = 1 if name.endswith("TRUE") else 0
@@ -94,7 +94,7 @@ def x_scripts(name, types):
                     lines.append(step_line(g, ei))
                 lines.append("E")
                 meta[xid] = (name, init, path, ty)
-    if name.startswith("one"):
+    if name.startswith("one") and huge:
         # the same behaviours on a buffer of 2^32 + cap slots (element type unsigned char; the storage is only touched where elements
         # are): every behaviour that never fills the model's buffer and does not resize -- its answers do not depend on the capacity
         def small(e):
@@ -333,7 +333,8 @@ def check(pid, tier, seed):
     samples = []
     dumps = []
     for name, types in graphs(tier):
-        g, meta, script, st, (ncov, nwant) = x_scripts(name, types)
+        # (not under ASan: poisoning the shadow of a 4 GiB block takes seconds per execution; C04's build is the plain one)
+        g, meta, script, st, (ncov, nwant) = x_scripts(name, types, huge=(pid == "C04"))
         dumps.append(st)
         total_states += len(g.states)
         total_edges += len(g.edges)
